@@ -282,3 +282,13 @@ def run(ctx):
     lo, hi = pd.Timestamp("1678-01-01").value // 10 ** 9, pd.Timestamp("2261-12-31").value // 10 ** 9
     tstr = st.builds(lambda s, ns: str(pd.Timestamp(s * 10 ** 9 + ns)), st.integers(lo, hi), st.sampled_from([0, 1, 999999999]))
     ctx.given("accessor", st.builds(lambda t: {"times": t}, st.lists(tstr, min_size=1, max_size=12, unique=True)), ctx.n(150, 2500), fn=f_a)
+
+    # long daily / dekadal records across leap and non-leap years (any per-array state in the accessor shows up here)
+    def _daily(year, doy, n, step, hour, rev):
+        t0 = pd.Timestamp(year=year, month=1, day=1) + pd.Timedelta(days=doy, hours=hour)
+        ts = [str(t0 + pd.Timedelta(days=step * i)) for i in range(n)]
+        return {"times": ts[::-1] if rev else ts}
+
+    rng = st.builds(_daily, st.integers(1700, 2200), st.integers(0, 364), st.integers(300, 800), st.sampled_from([1, 1, 1, 5, 10]),
+                    st.sampled_from([0, 0, 13]), st.booleans())
+    ctx.given("accessor", rng, ctx.n(25, 300), fn=f_a, shrink=False)
